@@ -23,6 +23,10 @@ def check_doc(args):
         if text and (pos < 0 or src[pos:pos + len(text)] != text):
             bad.append(('C13-text-position', {'text_token': text, 'position': pos}))
             break
+    for npos, tpos, text in o['text_nodes']:
+        if text and tpos is not None and tpos >= 0 and npos != tpos:
+            bad.append(('C13-text-node-position', {'text': text, 'node_position': npos, 'token_position': tpos}))
+            break
     # line / column of every offset
     line = col = 0
     for k, ch in enumerate(src):
@@ -133,6 +137,47 @@ def token_arith(chk, quick):
     chk.count('token_operations', len(recs))
 
 
+def _bare(src):
+    """offsets of text tokens, text nodes and regex matches on a source whose commands take unbraced arguments"""
+    soup, o = D.observe_doc(src)
+    if o['o'] != 'ok':
+        return None
+    for pos, text in o['texts']:
+        if text and (pos is None or pos < 0 or src[pos:pos + len(text)] != text):
+            return ('C13-text-position', {'text_token': text, 'position': pos})
+    for npos, tpos, text in o['text_nodes']:
+        if text and npos != tpos:
+            return ('C13-text-node-position', {'text': text, 'node_position': npos, 'token_position': tpos})
+    try:
+        ms = [(m.position, str(m)) for m in soup.search_regex('[a-z]+')]
+    except Exception as e:    # noqa
+        return ('C13-regex', {'pattern': '[a-z]+', 'raised': type(e).__name__})
+    for pos, m in ms:
+        if pos is None or src[pos:pos + len(m)] != m:
+            return ('C13-regex', {'pattern': '[a-z]+', 'match': m, 'position': pos})
+    return ()
+
+
+def bare_args(chk, quick):
+    """sources in which fixed-signature commands take unbraced arguments (outside the generator's well-formed shapes):
+    TLC enumerates them, the machine parses them (its text leaves carry their offsets), the code's offsets must be true"""
+    from harness import strings as S
+    words = ['\\def', '\\textbf', '\\section', '\\label', '\\a', '{', '}', '[', ']', 'x', ' ', 'ab c', '\\foo', '\n', '$', 'k']
+    res = S.explore(chk, 'bare', [(words, 3 if quick else 4)], invariants=['C19_TokPos'], runs='', timeout=1800)
+    S.model_must_hold(chk, res)
+    srcs = [from_atoms(r['i']) for r in res.records if r['A']['o'] == 'ok']
+    out = obs.pmap(_bare, srcs)
+    n = 0
+    for src, b in zip(srcs, out):
+        if b is None:
+            continue
+        n += 1
+        chk.case('bare:' + src)
+        if b:
+            chk.violation(b[0], dict(b[1], kind='bare-args', input=src))
+    chk.count('bare_argument_sources', n)
+
+
 def run(chk):
     quick = chk.tier == 'quick'
     chk.rule = ('TLC generates every well-formed document within the budget with the offset of every node (Unparse) and the '
@@ -150,6 +195,7 @@ def run(chk):
         c01.replay_docs(chk, recs, p['UserSkipG'], check_doc, 'positions, line/column and regex offsets')
         for r in sorted(recs, key=lambda r: -len(r['i']))[:2]:
             chk.sample({'source': from_atoms(r['i']), 'nodes': r['nodes']})
+    bare_args(chk, quick)
     linecol(chk, 9 if quick else 13)
     token_arith(chk, quick)
     srcs = []
